@@ -27,13 +27,18 @@ RULE = ("scenarios = <=5 launches (event trigger / service call / @task_unique-d
         "is alive - every decorated function carries two @event_trigger and one @state_trigger, the launch says which "
         "fires -, decorated vs running owner, foreign callers, nested context names with dotted task names - since "
         "/repo ef1f444 expected to be as separate as any other two contexts). "
+        "Family E = the done-callback phase of run_coro's finally: runs register a done-callback on themselves whose plan "
+        "sleeps and / or claims; claims of other runs arrive while the owner is inside its suspended callback, callbacks "
+        "claim names themselves (also as their last statement, also before raising), kill_me meets an owner inside its "
+        "callback, halted / displaced / decorated runs go on into their callbacks; directed + random. "
         "Every scenario runs under legacy_decorators True and False.  Non-trivial = at least one task.unique step or "
         "decorator; distinct by payload.")
 ASSUMPTIONS = [
     "asyncio is cooperative: code between two awaits is atomic; Task.cancel() is delivered at the task's next resumption",
     "asyncio.Queue is FIFO (reaper queue)",
     "tasks in the generated scripts have no try/finally around task.unique (a parked kill-me caller never runs again)",
-    "done-callbacks are absent here (they are C14's subject), so run_coro's finally is one atomic segment",
+    "done-callbacks (family E) are user code run by the ending task itself: in the model they are further segments of that "
+    "task between `endBody` and `exit`; the callback table itself is C14's subject",
 ]
 TRUSTED = ["harness/run_C13.py (script generator, API-level trace wrappers, canonicalisation, Python property oracle)",
            "harness/ha_env.py + vclock.py (real Home Assistant instance on a virtual clock)",
@@ -84,6 +89,7 @@ def gen_files(p):
             files[CTX_FILE[ctx]] = MOD_SRC
             continue
         plans = {i: pl for i, pl in enumerate(p["plans"]) if p["launch"][i][2] == ci}
+        cbplans = {int(i): pl for i, pl in (p.get("cbs") or {}).items() if p["launch"][int(i)][2] == ci}
         c = ident(ctx)
         src = (["import m", ""] if MOD in p["ctxs"] else []) + [
                "def owns(name):",
@@ -92,10 +98,10 @@ def gen_files(p):
                "    except NameError:",
                "        return False",
                "",
-               f"PLANS = {plans!r}", "", "def runner(i):",
-               "    rec('start', i, task.current_task())",
-               "    j = 0",
-               "    for st in PLANS[i]:",
+               f"PLANS = {plans!r}",
+               f"CBPLANS = {cbplans!r}", "",
+               "def steps(i, plan, j):",
+               "    for st in plan:",
                "        rec('b', i, j)",
                "        if st[0] == 'u':",
                "            task.unique(st[1], kill_me=st[2])",
@@ -122,6 +128,18 @@ def gen_files(p):
                "            raise ValueError('boom')",
                "        rec('a', i, j)",
                "        j += 1",
+               "",
+               "def fin(i):",
+               "    # done-callback of run i: further segments of the same task, after its body has ended",
+               "    rec('cbstart', i)",
+               "    steps(i, CBPLANS[i], len(PLANS[i]))",
+               "    rec('end2', i)",
+               "",
+               "def runner(i):",
+               "    rec('start', i, task.current_task())",
+               "    if i in CBPLANS:",
+               "        task.add_done_callback(task.current_task(), fin, i)",
+               "    steps(i, PLANS[i], 0)",
                "    rec('end', i)",
                "",
                f"@event_trigger('go_{c}')",
@@ -151,15 +169,47 @@ def gen_files(p):
 
 def horizon(p):
     h = 0
-    for l, pl in zip(p["launch"], p["plans"]):
-        h = max(h, l[0] + sum(st[1] for st in pl if st[0] == "s"))
+    cbs = p.get("cbs") or {}
+    for i, (l, pl) in enumerate(zip(p["launch"], p["plans"])):
+        h = max(h, l[0] + sum(st[1] for st in pl + cbs.get(str(i), []) if st[0] == "s"))
     return h + 2
 
 
 # ------------------------------------------------------------------ one run on the real code
+_UHOOK = {"trace": None, "depth": [0], "installed": False}
+
+
+def _install_unique_hook():
+    """Wrap Function.task_unique_factory once per process, BEFORE pyscript is set up, so that every function table - also
+    the one of the file-level evaluator that done-callbacks run with - gets the traced task.unique.  The wrapper calls
+    the real closure; it only records begin / end of the call while a trace is active (and not inside the new
+    subsystem's decorator, which is one model step of its own)."""
+    if _UHOOK["installed"]:
+        return
+    from custom_components.pyscript.function import Function
+    orig_factory = Function.task_unique_factory.__func__
+
+    def factory(cls, ctx):
+        inner = orig_factory(cls, ctx)
+
+        async def task_unique(name, kill_me=False):
+            tr = _UHOOK["trace"]
+            if tr is None or _UHOOK["depth"][0]:
+                return await inner(name, kill_me=kill_me)
+            t = asyncio.current_task()
+            tr.append(("ub", t, ctx.get_global_ctx_name(), name, bool(kill_me)))
+            r = await inner(name, kill_me=kill_me)
+            tr.append(("ua", t))
+            return r
+        return task_unique
+    Function.task_unique_factory = classmethod(factory)
+    _UHOOK["installed"] = True
+
+
 def run_one(p):
     """-> dict(impl=..., line=..., records=[...], error=None|str)"""
     from ha_env import run_ha
+    _install_unique_hook()
     try:
         return run_ha(gen_files(p), bool(p["legacy"]), lambda env: _body(env, p))
     except Exception as e:  # harness-level failure of this case: reported as an outcome, judged by the tie
@@ -174,7 +224,8 @@ async def _body(env, p):
 
     loop = env.loop
     trace = []
-    depth = [0]
+    depth = _UHOOK["depth"]
+    depth[0] = 0
     saved = {}
 
     # --- wrappers (API-level trace) -------------------------------------------------------------
@@ -197,8 +248,15 @@ async def _body(env, p):
         t = asyncio.current_task()
         trace.append(("sp", t, False))
         why = "ret"
+
+        async def body():
+            # the end of the awaited coroutine = the beginning of run_coro's finally (done-callbacks, then the release)
+            try:
+                return await coro
+            finally:
+                trace.append(("eb", t))
         try:
-            return await orig_run_coro(cls, coro, ast_ctx)
+            return await orig_run_coro(cls, body(), ast_ctx)
         except asyncio.CancelledError:
             why = "can"
             raise
@@ -206,24 +264,7 @@ async def _body(env, p):
             trace.append(("x", t, why))
     Function.run_coro = classmethod(run_coro)
 
-    orig_factory = Function.task_unique_factory.__func__
-    saved["task_unique_factory"] = Function.__dict__["task_unique_factory"]
-
-    def factory(cls, ctx):
-        inner = orig_factory(cls, ctx)
-
-        async def task_unique(name, kill_me=False):
-            if depth[0]:
-                return await inner(name, kill_me=kill_me)
-            t = asyncio.current_task()
-            trace.append(("ub", t, ctx.get_global_ctx_name(), name, bool(kill_me)))
-            r = await inner(name, kill_me=kill_me)
-            trace.append(("ua", t))
-            return r
-        return task_unique
-    Function.task_unique_factory = classmethod(factory)
-    saved["ast_unique"] = Function.ast_functions["task.unique"]
-    Function.ast_functions["task.unique"] = Function.task_unique_factory
+    _UHOOK["trace"] = trace          # task.unique is traced through the hook installed before pyscript was set up
 
     orig_used = Function.unique_name_used.__func__
     saved["unique_name_used"] = Function.__dict__["unique_name_used"]
@@ -340,8 +381,7 @@ async def _body(env, p):
             snapshot()
     finally:
         Function.run_coro = saved["run_coro"]
-        Function.task_unique_factory = saved["task_unique_factory"]
-        Function.ast_functions["task.unique"] = saved["ast_unique"]
+        _UHOOK["trace"] = None
         Function.unique_name_used = saved["unique_name_used"]
         TaskUniqueDecorator.handle_call = saved["handle_call"]
         for t in foreign_tasks:
@@ -380,6 +420,9 @@ def _canon(p, trace, records):
         elif kind == "rp":
             ops.append(["rp", n(e[1])])
             toks.append("r:ok")
+        elif kind == "eb":
+            ops.append(["eb", n(e[1])])
+            toks.append("e:ok")
         elif kind == "x":
             ops.append(["x", n(e[1]), e[2]])
             toks.append("x:ok")
@@ -414,8 +457,8 @@ def _canon(p, trace, records):
             log.append([tag, r[2], r[3]])
         elif tag == "chk":
             log.append(["chk", r[2], r[3], bool(r[4])])
-        elif tag == "end":
-            log.append(["end", r[2]])
+        elif tag in ("end", "end2", "cbstart"):
+            log.append([tag, r[2]])
         elif tag == "snap":
             s = r[2]
             views = {ctx: {nm: plan_of.get(t, -1) for nm, t in s["views"][ctx].items()} for ctx in p["ctxs"]}
@@ -427,7 +470,11 @@ def _canon(p, trace, records):
 # ------------------------------------------------------------------ the property oracle (script-level, per (ctx, name))
 def oracle(p, log):
     """Check the C13 statement on one recorded run.  Returns None or 'kind detail'."""
-    L, plans = p["launch"], p["plans"]
+    L = p["launch"]
+    cbs = {int(i): pl for i, pl in (p.get("cbs") or {}).items()}
+    # a run with a done-callback goes on after its body: the callback's steps are numbered after the body's
+    plans = [pl + cbs.get(i, []) for i, pl in enumerate(p["plans"])]
+    nbody = [len(pl) for pl in p["plans"]]
     foreign = {i for i, l in enumerate(L) if l[1] == "foreign"}
     deco = {i: (l[4][0], bool(l[4][1])) for i, l in enumerate(L) if l[1] == "deco"}
     ctx_of = {i: p["ctxs"][l[2]] for i, l in enumerate(L)}
@@ -474,8 +521,11 @@ def oracle(p, log):
                 key = (ctx_of[i] if st[0] != "m" else MOD, st[1])
                 pending[i] = (key, bool(st[2]), owner(key))
             elif st[0] == "r":
-                ended.add(i)
-                state[i] = "dead"
+                if i in cbs and j < nbody[i]:
+                    pass                  # the body raises; the task lives on through its done-callback
+                else:
+                    ended.add(i)
+                    state[i] = "dead"
         elif tag == "a":
             i, j = e[1], e[2]
             st = plans[i][j]
@@ -493,6 +543,20 @@ def oracle(p, log):
             if e[1] not in foreign and not e[3]:
                 return f"name2id-not-the-caller-after-claim task={e[1]} step={e[2]}"
         elif tag == "end":
+            if e[1] not in cbs:
+                ended.add(e[1])
+                state[e[1]] = "dead"
+        elif tag == "cbstart":
+            # the body of run i is over (returned, raised, or was cancelled: displaced / halted by kill_me) and its
+            # done-callback begins: the task is alive - it owns what it owned and may claim more - until the callback ends
+            i = e[1]
+            if i in pending:
+                key, km, o = pending.pop(i)
+                if not (km and o is not None and o != i):
+                    return f"unique-call-never-returned task={i}"
+            if state.get(i) == "dying":
+                state[i] = "alive"
+        elif tag == "end2":
             ended.add(e[1])
             state[e[1]] = "dead"
         elif tag == "snap":
@@ -732,11 +796,86 @@ def family_d(rng):
     return out
 
 
+def family_e(rng, n):
+    """the done-callback phase of run_coro's finally: owners whose done-callback SUSPENDS (the task is alive and owns
+    its names until the callback is over), claims that ARRIVE during the callback, claims made BY a callback, kill_me
+    against an owner that is inside its callback, a halted / displaced run that goes on into its callback.
+    `cbs` = {launch index: plan of the done-callback the run registers on itself as its first statement}."""
+    out = []
+    T = lambda *l: [[x[0], x[1], 0, i, None] for i, x in enumerate(l)]      # launches (instant, kind) in file.a
+    # a claim arrives while the owner is inside its suspended callback; a third claimer comes after the owner's clean-up
+    for k1, k2 in (("trig", "svc"), ("create", "trig")):
+        out += both({"ctxs": FLAT, "plans": [[["u", "n0", False], ["s", 1]], [["u", "n0", False], ["s", 4]],
+                                             [["u", "n0", False], ["s", 1]]],
+                     "cbs": {"0": [["s", 3]]}, "launch": T((0, k1), (2, k2), (4, "trig"))}, ("E", "claim-during-cb"))
+    # the owner keeps a second name through the take-over of the first and through its own callback
+    out += both({"ctxs": FLAT, "plans": [[["u", "n0", False], ["u", "n1", False], ["s", 1]], [["u", "n0", False], ["s", 3]],
+                                         [["s", 1], ["u", "n1", True], ["s", 1]]],
+                 "cbs": {"0": [["s", 3]]}, "launch": T((0, "trig"), (2, "trig"), (2, "svc"))}, ("E", "claim-during-cb"))
+    # claims made BY a callback: released when the task is over; seen by a kill_me caller meanwhile; re-claim of the own name
+    out += both({"ctxs": FLAT, "plans": [[["s", 1]], [["s", 2], ["u", "late", True], ["s", 1]], [["s", 4], ["u", "late", True], ["s", 1]]],
+                 "cbs": {"0": [["u", "late", False], ["s", 2]]}, "launch": T((0, "trig"), (0, "svc"), (0, "trig"))},
+                ("E", "claim-by-cb"))
+    out += both({"ctxs": FLAT, "plans": [[["u", "n0", False], ["r"]], [["s", 2], ["u", "n1", False], ["s", 2]]],
+                 "cbs": {"0": [["u", "n0", False], ["u", "n1", False], ["s", 3], ["u", "n2", False]],
+                         "1": [["u", "n0", False]]},
+                 "launch": T((0, "create"), (0, "trig"))}, ("E", "claim-by-cb"))
+    # a callback without any suspension claims as its last statement; a callback that raises after claiming
+    out += both({"ctxs": FLAT, "plans": [[["s", 1]], [["s", 1]], [["s", 3], ["u", "late", True], ["u", "x", True], ["s", 1]]],
+                 "cbs": {"0": [["u", "late", False]], "1": [["u", "x", False], ["r"]]},
+                 "launch": T((0, "trig"), (0, "svc"), (0, "trig"))}, ("E", "claim-by-cb"))
+    # kill_me against an owner that is inside its callback: the caller is terminated, the owner finishes its callback
+    out += both({"ctxs": FLAT, "plans": [[["u", "n0", False], ["s", 1]], [["u", "n0", True], ["s", 1]],
+                                         [["u", "n0", True], ["s", 1]]],
+                 "cbs": {"0": [["s", 3]]}, "launch": T((0, "trig"), (2, "trig"), (5, "trig"))}, ("E", "killme-vs-cb"))
+    # a run halted by kill_me (and one displaced) goes on into its callback, which claims and sleeps
+    out += both({"ctxs": FLAT, "plans": [[["u", "n0", False], ["s", 5]], [["u", "n0", True], ["s", 1]],
+                                         [["s", 3], ["u", "n1", False], ["s", 1]]],
+                 "cbs": {"1": [["u", "n1", False], ["s", 3]]}, "launch": T((0, "trig"), (1, "trig"), (0, "svc"))},
+                ("E", "halted-into-cb"))
+    out += both({"ctxs": FLAT, "plans": [[["u", "n0", False], ["s", 5]], [["u", "n0", False], ["s", 5]],
+                                         [["s", 2], ["u", "n2", False], ["s", 2]]],
+                 "cbs": {"0": [["u", "n2", False], ["s", 3]], "1": [["u", "n1", False]]},
+                 "launch": T((0, "trig"), (1, "create"), (0, "trig"))}, ("E", "displaced-into-cb"))
+    # decorated owners with a suspending callback, the next occurrence arrives during the callback / after it
+    for km in (False, True):
+        out += both({"ctxs": FLAT, "plans": [[["s", 1]], [["s", 1]], [["s", 1]]],
+                     "cbs": {"0": [["s", 2]], "1": [["u", "n1", False]]},
+                     "launch": [[0, "deco", 0, 0, ["n0", km, 0]], [2, "deco", 0, 1, ["n0", km, 1]],
+                                [5, "deco", 0, 2, ["n0", km, 2]]]}, ("E", "deco-cb"))
+    # two contexts and the module helper: a callback claims in its own file's context and through the helper
+    out += both({"ctxs": WITHMOD, "plans": [[["m", "n0", False], ["s", 1]], [["s", 2], ["m", "n0", False], ["u", "n0", False], ["s", 2]]],
+                 "cbs": {"0": [["u", "n0", False], ["s", 2], ["m", "n0", False], ["s", 1]]},
+                 "launch": [[0, "trig", 0, 0, None], [0, "trig", 1, 1, None]]}, ("E", "module-cb"))
+    # NOTE (C14-F8): all done-callbacks defined in one script file run on that file's ONE evaluator, so two callbacks
+    # that are suspended at the same time see each other's local variables.  That is C14's subject; here at most one
+    # run per scenario gets a callback that sleeps, every other callback runs without suspending.
+    for _ in range(n):
+        nt = rng.randrange(2, 5)
+        names = NAMES[: rng.randrange(1, 3)]
+        plans, launch, cbs = [], [], {}
+        sleeper = rng.randrange(nt)
+        for t in range(nt):
+            plans.append(rand_plan(rng, names))
+            kind = rng.choice(["trig", "trig", "svc", "create", "deco"])
+            deco = [rng.choice(names), rng.random() < 0.5, rng.randrange(3)] if kind == "deco" else None
+            launch.append([rng.randrange(4), kind, 0, t, deco])
+            if t == sleeper or rng.random() < 0.5:
+                cb = [pl for pl in rand_plan(rng, names) if pl[0] not in ("r", "s")][:3]
+                if t == sleeper:
+                    cb.insert(rng.randrange(len(cb) + 1), ["s", rng.randrange(1, 4)])
+                    if rng.random() < 0.4:
+                        cb.append(["s", 1])
+                cbs[str(t)] = cb
+        out += both({"ctxs": FLAT, "plans": plans, "launch": launch, "cbs": cbs}, ("E", "random-cb"))
+    return out
+
+
 def gen_cases(rng, tier, search):
-    na, nb, nc = (130, 150, 8) if tier == "quick" else (2500, 2500, 120)
+    na, nb, nc, ne = (110, 140, 8, 14) if tier == "quick" else (2500, 2500, 120, 600)
     if search:
-        na, nb, nc = na * 2, nb * 2, nc * 2
-    return family_d(rng) + family_c(rng, nc) + family_a(rng, na) + family_b(rng, nb)
+        na, nb, nc, ne = na * 2, nb * 2, nc * 2, ne * 2
+    return family_e(rng, ne) + family_d(rng) + family_c(rng, nc) + family_a(rng, na) + family_b(rng, nb)
 
 
 # ------------------------------------------------------------------ module API
@@ -822,6 +961,8 @@ def shrink(c, reason):
             q = json.loads(json.dumps(p))
             del q["launch"][i]
             del q["plans"][i]
+            if q.get("cbs"):
+                q["cbs"] = {str(int(k) - (int(k) > i)): v for k, v in q["cbs"].items() if int(k) != i}
             for t, l in enumerate(q["launch"]):
                 l[3] = t
             budget -= 1
@@ -860,5 +1001,10 @@ def extra_coverage(cases):
         for t in (c.impl or "").split():
             if ":" in t and t[0] in "urxdc" and len(t) < 8:
                 toks[t] = toks.get(t, 0) + 1
-    return {"launch_kinds": kinds, "plan_steps": steps, "observed_step_outcomes": toks,
+    cbk = {"runs_with_done_callback": sum(len(c.payload.get("cbs") or {}) for c in cases),
+           "callbacks_that_sleep": sum(1 for c in cases for pl in (c.payload.get("cbs") or {}).values()
+                                       if any(st[0] == "s" and st[1] > 0 for st in pl)),
+           "callbacks_that_claim": sum(1 for c in cases for pl in (c.payload.get("cbs") or {}).values()
+                                       if any(st[0] in UKINDS + ("m",) for st in pl))}
+    return {"launch_kinds": kinds, "plan_steps": steps, "observed_step_outcomes": toks, "done_callbacks": cbk,
             "tasks_per_case": {str(k): sum(1 for c in cases if len(c.payload["launch"]) == k) for k in range(1, 6)}}
